@@ -304,12 +304,37 @@ def plan(tier, seed):
         for i in range(0, len(roots), k):
             # contiguous chunks of sibling sub-trees share one pruning table inside the shard
             shards.append(dict(check='schedule', family=name, part='subtree', roots=roots[i:i + k]))
+    shards.append(dict(check='server-binding'))
     return shards
+
+
+BINDING_FACTS_C16 = ('shutdown-before-serve-returns-early', 'shutdown-does-not-end-the-loop',
+                      'request-not-handled-while-loop-runs', 'server_close-does-not-wait-for-handlers',
+                      'in-flight-request-not-answered', 'port-still-bound-after-server_close')
+
+
+def binding_shard(facts, acc, prop):
+    """conformance of the transcribed server model with pywbem's real ThreadedHTTPServer"""
+    from mc.listener_mc import server_binding_problems
+    problems, skipped = server_binding_problems()
+    if skipped:
+        acc.case(('binding',), nontrivial=False, outcome='binding:skipped')
+        acc.cap('server binding facts not checked: ' + skipped)
+        return acc
+    mine = [p for p in problems if p[0] in facts]
+    acc.case(('binding',), nontrivial=True, outcome='binding:%s' % ('ok' if not mine else 'VIOLATION'),
+             calls=6)
+    for fact, exp, obs in mine:
+        acc.violation(dict(check='server-binding', what=fact), dict(check='server-binding'), exp, obs)
+    return acc
 
 
 def run_shard(shard, tier):
     warnings.simplefilter('ignore')
     acc = Acc()
+    if shard['check'] == 'server-binding':
+        acc.states = 1
+        return binding_shard(BINDING_FACTS_C16, acc, ID)
     cfg, bound = _family(tier, shard['family'])
 
     def run(prefix):
@@ -331,6 +356,8 @@ def run_shard(shard, tier):
 def replay(case, tier):
     warnings.simplefilter('ignore')
     acc = Acc()
+    if case.get('check') == 'server-binding':
+        return binding_shard(BINDING_FACTS_C16, acc, ID)
     cfg = case['config']
     S, obs = run_one(cfg, case['choices'])
     S2, obs2 = run_one(cfg, case['choices'])
@@ -341,6 +368,9 @@ def replay(case, tier):
 
 
 def snippet(case):
+    if case.get('check') == 'server-binding':
+        return ('import sys; sys.path.insert(0, "/verif")\nimport mc\nfrom mc.listener_mc import server_binding_problems\n'
+                'def test_replay():\n    assert server_binding_problems()[0] == []\n')
     return ('import sys; sys.path.insert(0, "/verif")\nimport mc\nfrom checks import c16_listener_sched as c\n'
             'def test_replay():\n    S, obs = c.run_one(%r, %r)\n    assert not c.judge(%r, S, obs)\n' %
             (case['config'], case['choices'], case['config']))
